@@ -185,7 +185,8 @@ func (p *Path) runFrameOrSummarise(fr *frame, fn *ssa.Function, args []Value) (r
 	defer func() {
 		if r := recover(); r != nil {
 			pa, ok := r.(pathAbort)
-			if !ok || pa.kind != "unsupported" || p.writes != writes || len(p.trail) != decs {
+			_ = decs
+			if !ok || pa.kind != "unsupported" || p.writes != writes {
 				panic(r)
 			}
 			p.depth = depth
